@@ -425,7 +425,8 @@ def opKeyUse (a : List String) : M String :=
                | .ok a, .error _ => "OC(ok:" ++ intStr a ++ ")"
                | r, _ => okAlg r)
             else okAlg (k.verifier true)
-          let algd := match k.algorithmOrDefault with | some a => "ok:" ++ intStr a | none => "err"
+          let algd := (match k.algorithmOrDefault with | some a => "ok:" ++ intStr a | none => "err") ++
+            " acc=" ++ joinWith "/" ([lbl (-1), lbl (-2), lbl (-3), lbl (-4), GoVal.str "ext".toUTF8.toList].map (paramFlags k.params))
           (match k.marshal with
            | .ok enc =>
              let redec := match Key.unmarshal enc with
